@@ -238,7 +238,10 @@ func (g *GRE) NextLayerType() gopacket.LayerType {
 }
 
 func (g *GRE) VerifyChecksum() (error, gopacket.ChecksumVerificationResult) {
-	bytes := append(g.Contents, g.Payload...)
+	// Contents usually has spare capacity reaching into the packet's buffer, so
+	// appending to it would write into data that other readers share.
+	bytes := make([]byte, 0, len(g.Contents)+len(g.Payload))
+	bytes = append(append(bytes, g.Contents...), g.Payload...)
 
 	existing := g.Checksum
 	verification := gopacket.ComputeChecksum(bytes, 0)
